@@ -1,6 +1,6 @@
 """Single source for MANIFEST.json (bin/mkmanifest)."""
 
-HOOK_COMMITS = ["99fd8c0", "15c9526"]
+HOOK_COMMITS = ["99fd8c0", "15c9526", "0ab4dce"]
 
 ENGINES = [
     {"name": "tlc", "path": "/verif/spec", "kind_free_text": "TLA+ specifications checked with TLC: E1 design check, E2 case/behaviour generation, E3 trace validation",
@@ -65,6 +65,16 @@ CHECKS = {
         "text": "Model-based: the bulk setters are operators of ModfileModel (exact requested set, one entry per path); TLC enumerates requirement/use layouts x go versions x requested lists, checks exactness on the model and prints each case; the harness applies the real setter and records the output's block structure, which TLC judges with the property's predicates (ExactSet, BlockSorted with the three documented comparators over Semver.tla, OnePerPath, CommentsKept, Separated); random files with up to 24 requirements likewise. One finding recorded (go directives with a pre-release suffix), the SetUse defect repaired.",
         "note": "Trusted: layout renderer, block-structure projection, the reading of 'one uncommented line or block'. Bounds: path/version vocabulary, layout family.",
         "technique": TLA + "spec-generated (layout, request) cases replayed into the setters, output block structures trace-validated against TLA+ layout predicates",
+    },
+    "C02": {
+        "text": "Model-based with an independent oracle: ModfileSyntax.tla is a character-level lexer (with positions) and statement parser written from the grammar; TLC enumerates every sequence of up to 4/5 lexical items (12 classes) and 3/4 items (28 items) plus a transition cover, printing the specification's verdict, statements, tokens and comment texts; the harness requires that the real parser's re-parse of its own formatted output equals the specification's reading of the input and that formatting is idempotent (4 M inputs replayed with zero drift on the unchanged tree). Well-formed layouts in five text variants, with and without a version fixer, must keep their directive values through formatting. Mutated fixtures are parsed by the specification under TLC.",
+        "note": "Trusted: the transcription of the lexical grammar and of unicode.IsSpace/IsPrint for the generated character set. Not modelled: comment attachment and the printer's layout (the property lets attachment move).",
+        "technique": TLA + "independent lexer/parser specification; spec-generated inputs replayed through parse-format-parse; recorded mutated inputs trace-validated",
+    },
+    "C20": {
+        "text": "Same inputs as C02 including all rejected ones and an error-directed item family, with the predicates of C20: no panic / hang / internal error (watchdog and recover), every position in trees and errors recomputed from the byte offset and compared with the specification lexer's positions, ParseLax accepts every layout Parse accepts with the same module/go/require/retract values and ignores appended unknown directives and blocks, ModulePath agrees with the strict parser (one known finding: a block line whose first token is 'module').",
+        "note": "Trusted: as C02. Strict acceptance of the layouts is observed from the code, not predicted by a directive-level specification; the lax/strict and ModulePath clauses are relations between functions of the code, checked on spec-generated layouts.",
+        "technique": TLA + "spec-generated inputs (accepted and rejected) with predicted positions replayed into the parsers; recorded mutated inputs trace-validated",
     },
 }
 
